@@ -1,32 +1,26 @@
-(** C07 — statements that are NOT proved (after round 2 only the stack-trie equality is left).  They are kept as [Definition]s (no
-    axioms) so that the reading of the property is auditable; the harness carries them
-    differentially (implementation vs model, byte for byte, and direct oracles). *)
+(** C07 — statements that are NOT proved.  After round 2 every statement that used to be here
+    (cache correctness, node codec round trip, commit/reopen, proof completeness and soundness,
+    build = operational trie, stack trie = trie) is a theorem in Properties.v.
+
+    What remains outside the proofs and is carried by the harness only (differentially,
+    implementation vs model byte for byte, plus the direct oracles):
+    - a second Commit after nodes were resolved from the database (clean nodes that the
+      committer skips): [C07_reopen] is about tries reached from the empty trie by
+      Update / Delete / Hash, all of whose nodes are dirty;
+    - insert / delete THROUGH hash nodes (only Get through resolution is proved);
+    - VerifyRangeProof (not modelled);
+    - types.DeriveSha's index order being [sorted_bytes] (the rlp(i) keys are compared by the
+      harness; C07_stack_equals takes the order as a hypothesis). *)
 From Coq Require Import List NArith Arith Bool.
 From Kardia Require Import C07.Model C07.ProofsBase C07.ProofsCanon.
 Import ListNotations.
 
-Section Open.
-Variable H : bytes -> bytes.
-
-
-(** streaming trie: for strictly increasing, prefix-free keys and non-empty values the stack
-    trie does not panic and computes the root of the canonical trie [build] *)
-Fixpoint klt (a b : key) : Prop :=
-  match a, b with
-  | _, [] => False
-  | [], _ :: _ => True
-  | x :: a', y :: b' => x < y \/ (x = y /\ klt a' b')
-  end.
-
-Definition sorted_prefix_free (kvs : list (bytes * bytes)) : Prop :=
-  forall i j a b, i < j -> nth_error kvs i = Some a -> nth_error kvs j = Some b ->
-    klt (keybytes_to_hex (fst a)) (keybytes_to_hex (fst b)) /\
-    forall r, fst b <> fst a ++ r.
-
-Definition C07_stack_equals_statement : Prop :=
-  forall kvs : list (bytes * bytes),
-  Forall (fun kv => is_bytes (fst kv) /\ snd kv <> []) kvs ->
-  sorted_prefix_free kvs ->
-  stack_root H kvs = Some (build_root H kvs).
-
-End Open.
+(** second commit: committing a trie whose root is a view (hash nodes resolved from the database,
+    clean flags) of a canonical trie writes what is missing and reopening gives the same content *)
+Definition C07_recommit_statement (H : bytes -> bytes) : Prop :=
+  forall d ops1 ops2 st,
+    st = fold_left (fun st o => fst (step H st o)) (ops1 ++ [OpCommit 0] ++ ops2 ++ [OpReopen 0 1]) (mkState [Empty; Empty] d) ->
+    (exists x y : bytes, x <> y /\ H x = H y) \/
+    forall kb, fst (trie_hash H (slot st 1)) = fst (trie_hash H (slot st 0)) /\
+               (forall v n, trie_get (nodedb st) (slot st 0) kb = Ok (v, n) ->
+                            exists n', trie_get (nodedb st) (slot st 1) kb = Ok (v, n')).
